@@ -18,16 +18,31 @@
 (*   [k |-> "var",   name]                   %name                          *)
 (*   [k |-> "call",  in, f, args]            function invocation            *)
 (*   [k |-> "bin",   op, l, r]               binary operator                *)
-(* env = [forest, sch, vars].                                              *)
+(*   [k |-> "neg",   in]                     unary minus                    *)
+(*   [k |-> "typeop", op, in, ns, name]      in is T | in as T | in.ofType(T) *)
+(* env = [forest, sch, vars] (+ kinds: FHIR type name -> kind, for typeop). *)
+(*                                                                         *)
+(* Arithmetic, the string functions, the conversions and the type          *)
+(* operators are not restated here: Eval dispatches to the reference       *)
+(* modules FPArith (C08), FPStrings (C14), FPConvert (C13) and FPTypes     *)
+(* (C12) on the part of their domain where those modules fix one answer,   *)
+(* and answers "any" elsewhere.                                            *)
 (*                                                                         *)
 (* Results: [k |-> "ok", items] | [k |-> "err"] (an error is required)     *)
-(*          | [k |-> "any"] (the properties leave the outcome open).       *)
+(*          | [k |-> "any"] (the properties leave the outcome open)        *)
+(*          | [k |-> "eoe"] (empty or an error, never a value).            *)
 (***************************************************************************)
 EXTENDS FPNav, FPLogic, FPCompare
+
+Ar == INSTANCE FPArith
+St == INSTANCE FPStrings
+Cv == INSTANCE FPConvert
+Ty == INSTANCE FPTypes
 
 EOk(items) == [k |-> "ok", items |-> items]
 EErr == [k |-> "err"]
 EAny == [k |-> "any"]
+EEoE == [k |-> "eoe"]       \* empty or an error, never a value (C07: an empty argument where a single value is required)
 
 This == [k |-> "this"]
 
@@ -77,6 +92,123 @@ DescendantsOf(env, items) ==
 
 TruthOf(r) == IF r.k = "ok" THEN Singleton3(r.items) ELSE "X"
 
+
+(************************* dispatch to the value modules *******************)
+ArithOps == {"+", "-", "*", "/", "div", "mod"}
+MathFns  == {"abs", "ceiling", "floor", "truncate", "round"}
+StrFns0  == {"length", "upper", "lower", "toChars"}
+StrFns1  == {"startsWith", "endsWith", "contains", "indexOf"}
+StrFns   == StrFns0 \cup StrFns1 \cup {"substring", "replace"}
+ConvTarget(f) ==
+  CASE f \in {"toBoolean", "convertsToBoolean"} -> "Boolean" [] f \in {"toInteger", "convertsToInteger"} -> "Integer"
+    [] f \in {"toDecimal", "convertsToDecimal"} -> "Decimal" [] f \in {"toString", "convertsToString"} -> "String"
+    [] f \in {"toDate", "convertsToDate"} -> "Date"          [] f \in {"toDateTime", "convertsToDateTime"} -> "DateTime"
+    [] f \in {"toTime", "convertsToTime"} -> "Time"          [] OTHER -> "Quantity"
+ToFns   == {"toBoolean", "toInteger", "toDecimal", "toString", "toDate", "toDateTime", "toTime", "toQuantity"}
+ConvFns == {"convertsToBoolean", "convertsToInteger", "convertsToDecimal", "convertsToString", "convertsToDate",
+            "convertsToDateTime", "convertsToTime", "convertsToQuantity"}
+
+
+(* the result descriptor of FPArith as a machine result: one answer, or open *)
+ItemOfW(w) == IF w.int /\ Ar!DFitsInt32(w.d) THEN I(SToInt(DToSigned(w.d))) ELSE DItem(w.d)
+OfWitness(w) ==
+  IF w.k = "val" THEN (IF w.orEmpty \/ w.orErr THEN EAny ELSE EOk(<<ItemOfW(w)>>))
+  ELSE IF w.orErr THEN EAny ELSE EOk(<<>>)
+
+(* binary arithmetic on evaluated operands (item sequences) *)
+ArithBin(op, l, r) ==
+  IF Len(l) > 1 \/ Len(r) > 1 THEN EAny
+  ELSE IF Len(l) = 0 \/ Len(r) = 0 THEN EOk(<<>>)
+  ELSE LET a == Val(l[1])
+           b == Val(r[1])
+       IN IF IsNum(a) /\ IsNum(b) THEN (IF op = "/" THEN EAny        \* any decimal within the 16-place tolerance is permitted
+                                          ELSE OfWitness(Ar!WBin(op, Ar!NumOfItem(a), Ar!NumOfItem(b))))
+          ELSE IF op = "+" /\ a.t = "s" /\ b.t = "s" THEN EOk(<<S(a.cp \o b.cp)>>)
+          ELSE EAny
+
+(* `&`: empty counts as the empty string *)
+AmpBin(l, r) ==
+  LET strOrEmpty(c) == Len(c) = 0 \/ (Len(c) = 1 /\ Val(c[1]).t = "s")
+      cpOf(c) == IF Len(c) = 0 THEN <<>> ELSE Val(c[1]).cp
+  IN IF strOrEmpty(l) /\ strOrEmpty(r) THEN EOk(<<S(cpOf(l) \o cpOf(r))>>) ELSE EAny
+
+EmptyArg(args) == \E j \in 1..Len(args) : args[j].k = "ok" /\ Len(args[j].items) = 0
+MathFn(f, args, input) ==       \* args: evaluated argument results
+  IF Len(input) = 0 THEN (IF \A j \in 1..Len(args) : IntArg(args[j]).ok THEN EOk(<<>>) ELSE IF EmptyArg(args) THEN EEoE ELSE EAny)
+  ELSE IF Len(input) > 1 \/ ~IsNum(Val(input[1])) THEN EAny
+  ELSE IF EmptyArg(args) /\ f = "round" /\ Len(args) = 1 THEN EEoE
+  ELSE LET a == Ar!NumOfItem(Val(input[1])) IN
+       IF Len(args) = 0 THEN OfWitness(Ar!WUn(f, a, 0))
+       ELSE IF f = "round" /\ Len(args) = 1 /\ IntArg(args[1]).ok THEN OfWitness(Ar!WUn("roundp", a, IntArg(args[1]).i))
+       ELSE EAny
+
+StrItems(coll) == [j \in 1..Len(coll) |-> S(coll[j])]
+StrFn(f, args, input) ==        \* args: evaluated argument results
+  LET wantInt(j) == f = "substring"
+      good == \A j \in 1..Len(args) : IF wantInt(j) THEN IntArg(args[j]).ok ELSE StrArg(args[j]).ok
+      arity == CASE f \in StrFns0 -> {0} [] f \in StrFns1 -> {1} [] f = "substring" -> {1, 2} [] OTHER -> {2}
+  IN IF Len(args) \notin arity THEN EAny
+     ELSE IF Len(input) = 0 THEN (IF good THEN EOk(<<>>) ELSE IF EmptyArg(args) THEN EEoE ELSE EAny)
+     ELSE IF Len(input) > 1 \/ Val(input[1]).t # "s" THEN EAny
+     ELSE IF EmptyArg(args) THEN EEoE
+     ELSE IF ~good THEN EAny
+     ELSE LET s == Val(input[1]).cp
+              scp(j) == StrArg(args[j]).cp
+              n(j) == IntArg(args[j]).i
+          IN CASE f = "length"     -> EOk(<<I(St!StrLength(s))>>)
+               [] f = "toChars"    -> EOk(StrItems(St!StrToChars(s)))
+               [] f = "upper"      -> IF \A j \in 1..Len(s) : St!CaseKnown(s[j]) THEN EOk(<<S(St!StrUpper(s))>>) ELSE EAny
+               [] f = "lower"      -> IF \A j \in 1..Len(s) : St!CaseKnown(s[j]) THEN EOk(<<S(St!StrLower(s))>>) ELSE EAny
+               [] f = "startsWith" -> EOk(<<B(St!StrStartsWith(s, scp(1)))>>)
+               [] f = "endsWith"   -> EOk(<<B(St!StrEndsWith(s, scp(1)))>>)
+               [] f = "contains"   -> EOk(<<B(St!StrContains(s, scp(1)))>>)
+               [] f = "indexOf"    -> EOk(<<I(St!StrIndexOf(s, scp(1)))>>)
+               [] f = "replace"    -> EOk(<<S(St!StrReplace(s, scp(1), scp(2)))>>)
+               [] f = "substring"  ->
+                    IF Len(args) = 1 THEN EOk(StrItems(St!StrSubstring1(s, n(1))))
+                    ELSE IF St!StrSubstring2(s, n(1), n(2)) = St!StrSubstring2Alt(s, n(1), n(2))
+                         THEN EOk(StrItems(St!StrSubstring2(s, n(1), n(2)))) ELSE EAny     \* two permitted readings
+
+(* conversions of one item.  Left open: Quantity as a target or a source, complex elements, the spelling of     *)
+(* toString() for Decimals and date/time values (any string that converts back is permitted), FPConvert's own   *)
+(* ambiguous readings, and toInteger() of a string that is not an integer (a recorded finding: an error).       *)
+ConvFn(f, input) ==
+  IF Len(input) = 0 THEN EOk(<<>>)
+  ELSE IF Len(input) > 1 THEN EAny
+  ELSE LET v == Val(input[1])
+           T == ConvTarget(f)
+       IN IF v.t \notin (Cv!SystemTags \ {"q"}) \/ T = "Quantity" THEN EAny
+          ELSE IF Cv!Amb(T, v) THEN EAny
+          ELSE IF f \in ConvFns THEN EOk(<<B(Cv!Convertible(T, v))>>)
+          ELSE IF T = "String" THEN (IF v.t \in {"s", "i", "b"} THEN EOk(<<S(Cv!ToStr(v))>>) ELSE EAny)
+          ELSE IF T = "Integer" /\ v.t = "s" /\ Cv!To(T, v) = <<>> THEN EAny
+          ELSE EOk(Cv!To(T, v))
+
+(* the type of an item as C12 reads it: [ns, name, kind]; ns = "none" when the machine does not know it *)
+TypeOfItem(env, x) ==
+  IF x.t = "el" THEN
+     (IF x.r = 0 THEN [ns |-> "none", name |-> "", kind |-> ""]
+      ELSE LET nd == NodeAt(env.forest[x.r], x.addr) IN [ns |-> "FHIR", name |-> nd.ty, kind |-> nd.k])
+  ELSE IF x.t \in Cv!SystemTags THEN [ns |-> "System", name |-> Ty!SystemNameOf(x), kind |-> "system"]
+  ELSE [ns |-> "none", name |-> "", kind |-> ""]
+
+(* "T"/"F" when `x is spec` is fixed, "X" when the property leaves it open *)
+IsA(env, x, spec) ==
+  LET ty == TypeOfItem(env, x) IN
+  IF ty.ns = "none" \/ ty.name = "xhtml" \/ (spec.name = "BackboneElement" /\ ty.kind = "complex") THEN "X"
+  ELSE IF Ty!IsSubtype(ty.ns, ty.name, spec.ns, spec.name, env.kinds) THEN "T" ELSE "F"
+
+TypeOp(op, env, input, ns, name) ==
+  LET spec == Ty!Resolve(ns, name, env.kinds) IN
+  IF name \in {"Any", "any"} THEN EAny
+  ELSE IF spec.ns = "invalid" THEN EErr
+  ELSE IF Len(input) = 0 THEN EOk(<<>>)
+  ELSE IF \E j \in 1..Len(input) : IsA(env, input[j], spec) = "X" THEN EAny
+  ELSE IF op = "ofType" THEN EOk(SubsetOrdered(input, [j \in 1..Len(input) |-> IsA(env, input[j], spec) = "T"]))
+  ELSE IF Len(input) > 1 THEN EAny
+  ELSE IF op = "is" THEN EOk(<<B(IsA(env, input[1], spec) = "T")>>)
+  ELSE EOk(IF IsA(env, input[1], spec) = "T" THEN input ELSE <<>>)
+
 RECURSIVE Eval(_, _, _)
 RECURSIVE CallFn(_, _, _, _)
 
@@ -87,7 +219,7 @@ CallFn(f, args, env, input) ==
   CASE f = "where" ->
          LET ts == Truths(args[1], env, input) IN
          IF \E j \in 1..Len(ts) : ts[j] \in {"ERR", "X"}
-         THEN (IF \E j \in 1..Len(ts) : Eval(args[1], env, <<input[j]>>).k = "any" THEN EAny ELSE EErr)
+         THEN (IF \E j \in 1..Len(ts) : Eval(args[1], env, <<input[j]>>).k \in {"any", "eoe"} THEN EAny ELSE EErr)
          ELSE EOk(SubsetOrdered(input, [j \in 1..Len(ts) |-> ts[j] = "T" \/ (Mutant = "whereKeepsEmpty" /\ ts[j] = "E")]))
     [] f = "select" ->
          LET rs == [j \in 1..Len(input) |-> Eval(args[1], env, <<input[j]>>)] IN
@@ -99,7 +231,7 @@ CallFn(f, args, env, input) ==
     [] f = "all" ->
          LET ts == Truths(args[1], env, input) IN
          IF \E j \in 1..Len(ts) : ts[j] \in {"ERR", "X"}
-         THEN (IF \E j \in 1..Len(ts) : Eval(args[1], env, <<input[j]>>).k = "any" THEN EAny ELSE EErr)
+         THEN (IF \E j \in 1..Len(ts) : Eval(args[1], env, <<input[j]>>).k \in {"any", "eoe"} THEN EAny ELSE EErr)
          ELSE EOk(<<B(\A j \in 1..Len(ts) : ts[j] = "T" \/ (Mutant = "allIgnoresEmpty" /\ ts[j] = "E"))>>)
     [] f = "empty"  -> EOk(<<B(Len(input) = 0)>>)
     [] f = "count"  -> EOk(<<I(Len(input))>>)
@@ -152,11 +284,17 @@ CallFn(f, args, env, input) ==
          IF \E j, q \in 1..Len(input) : MayEqual(input[j], input[q]) # ItemsEqual(input[j], input[q]) THEN EAny
          ELSE LET d == SubsetOrdered(input, [j \in 1..Len(input) |-> ~\E q \in 1..(j - 1) : ItemsEqual(input[q], input[j])])
               IN IF f = "distinct" THEN EOk(d) ELSE EOk(<<B(Len(d) = Len(input))>>)
+    [] f \in StrFns  -> LET as == [j \in 1..Len(args) |-> Eval(args[j], env, input)] IN StrFn(f, as, input)
+    [] f \in MathFns -> LET as == [j \in 1..Len(args) |-> Eval(args[j], env, input)] IN MathFn(f, as, input)
+    [] f \in ToFns \cup ConvFns -> (IF Len(args) = 0 THEN ConvFn(f, input) ELSE EAny)
     [] OTHER -> EAny          \* functions this module does not model (yet): outcome kind only
 
 Eval(e, env, focus) ==
   CASE e.k = "this"  -> EOk(focus)
-    [] e.k = "root"  -> LET r == RootStep(env.forest, focus, e.name) IN EOk(r.items)
+    [] e.k = "root"  ->     \* a type name at the start of a path selects the input resources of that type; on a focus that
+                            \* is not made of resources (inside a function argument) the reading is left open
+         IF \A j \in 1..Len(focus) : focus[j].t = "el" /\ focus[j].r # 0 /\ NodeAt(env.forest[focus[j].r], focus[j].addr).k = "resource"
+         THEN (LET r == RootStep(env.forest, focus, e.name) IN EOk(r.items)) ELSE EAny
     [] e.k = "field" ->
          LET i == Eval(e.in, env, focus) IN
          IF Bad(i) THEN i
@@ -182,7 +320,17 @@ Eval(e, env, focus) ==
                 IN IF Cardinality(perm) = 1 THEN
                       (LET o == CHOOSE o \in perm : TRUE IN IF o.k = "ok" THEN EOk(o.items) ELSE EErr)
                    ELSE EAny)
+            ELSE IF e.op \in ArithOps THEN ArithBin(e.op, l.items, r.items)
+            ELSE IF e.op = "&" THEN AmpBin(l.items, r.items)
             ELSE EAny
+    [] e.k = "neg" ->
+         LET i == Eval(e.in, env, focus) IN
+         IF Bad(i) THEN i
+         ELSE IF Len(i.items) = 0 THEN EOk(<<>>)
+         ELSE IF Len(i.items) > 1 \/ ~IsNum(Val(i.items[1])) THEN EAny
+         ELSE OfWitness(Ar!WUn("neg", Ar!NumOfItem(Val(i.items[1])), 0))
+    [] e.k = "typeop" ->
+         LET i == Eval(e.in, env, focus) IN IF Bad(i) THEN i ELSE TypeOp(e.op, env, i.items, e.ns, e.name)
 
 (***************************************************************************)
 (* Acceptance predicates for the set functions, whose result the property  *)
